@@ -48,6 +48,8 @@ package jen
 //@   ensures [C05,C03] uniq: (f.path != path && path != "C") ==> uniq(mapof(f.imports))
 //@   ensures [C05,C19] uniqC: (f.path != path && path == "C") ==> uniq(mapof(f.imports))
 //@   ensures wf: wfImp(mapof(f.imports))
+//@   ensures file: regpre(f) && Fof(f) == old(Fof(f))
+//@   ensures [C08,C03] stable: stable(old(mapof(f.imports)), mapof(f.imports))
 //@   ensures [C05] legal: (f.path != path && !old(proper(f.imports[path])) && path != "C") ==> legalName(result)
 //@   ensures [C06] dot: (f.path != path && !old(proper(f.imports[path])) && path != "C" && isDotHint(mapof(f.hints), path)) ==> (result == "." && f.imports[path].alias)
 //@   ensures [C19] cgo: (f.path != path && path == "C") ==> (result == "C" && (!old(proper(f.imports[path])) ==> !f.imports["C"].alias))
@@ -71,7 +73,7 @@ package jen
 //@   free requires tree: treeOK()
 //@   modifies written[w], nwrites[w], failed[w], mapof(f.imports)
 //@   ensures [C01,C13,C03,C06,C11,C12,C15] spec: err == nil ==> StOf(w, f) == R(c, s, Fof(f), old(StOf(w, f)))
-//@   ensures file: regpre(f)
+//@   ensures file: regpre(f) && Fof(f) == old(Fof(f))
 //@   ensures [C08,C03] stable: stable(old(mapof(f.imports)), mapof(f.imports))
 
 //@ func (token).isNull [C13,C06,C08,C04]
@@ -104,27 +106,31 @@ package jen
 //@   implements Code.render
 
 //@ func (*Statement).previous [C01]
+//@   unfold prevAt
 //@   requires s != nil
 //@   ensures spec: result == prevAt(*s, 0, c)
 //@   loop 1 invariant scan: index == 0 - 1 && prevAt(*s, $i, c) == prevAt(*s, 0, c)
 
 //@ func (*Statement).render [C01,C13]
 //@   implements Code.render
+//@   unfold R RS null
 //@   loop 1 invariant rs: RS(*s, $i, first, s, Fof(f), StOf(w, f)) == RS(*s, 0, true, s, Fof(f), old(StOf(w, f)))
-//@   loop 1 invariant file: regpre(f) && stable(old(mapof(f.imports)), mapof(f.imports))
+//@   loop 1 invariant file: regpre(f) && Fof(f) == old(Fof(f)) && stable(old(mapof(f.imports)), mapof(f.imports))
 
 //@ func (*Group).renderItems [C01,C13,C03,C06,C04]
+//@   unfold RI null
 //@   requires g != nil
 //@   requires file: regpre(f)
 //@   free requires tree: treeOK()
 //@   modifies written[w], nwrites[w], failed[w], mapof(f.imports)
 //@   ensures [C13,C01] spec: err == nil ==> (StOf(w, f) == RI(g.items, 0, true, g.separator, g.multi, Fof(f), old(StOf(w, f))).st
 //@       && isNull == RI(g.items, 0, true, g.separator, g.multi, Fof(f), old(StOf(w, f))).first)
-//@   ensures file: regpre(f)
+//@   ensures file: regpre(f) && Fof(f) == old(Fof(f))
 //@   ensures [C08,C03] stable: stable(old(mapof(f.imports)), mapof(f.imports))
 //@   panics [C16] values-dict: g.name == "values" && len(g.items) > 1
 //@   loop 1 invariant ri: RI(g.items, $i, first, g.separator, g.multi, Fof(f), StOf(w, f)) == RI(g.items, 0, true, g.separator, g.multi, Fof(f), old(StOf(w, f)))
-//@   loop 1 invariant file: regpre(f) && stable(old(mapof(f.imports)), mapof(f.imports))
+//@   loop 1 invariant file: regpre(f) && Fof(f) == old(Fof(f)) && stable(old(mapof(f.imports)), mapof(f.imports))
 
 //@ func (*Group).render [C01,C13,C08,C09,C15]
 //@   implements Code.render
+//@   unfold R
